@@ -297,7 +297,12 @@ func init() {
 		fr.i.p.solverHint = argStr(fr, args[0])
 		return nil
 	}
-	I[vrtPath+"Budget"] = func(fr *frame, args []value) value { return nil }
+	I[vrtPath+"Budget"] = func(fr *frame, args []value) value {
+		if n := int64(fr.conc(args[0])); n > fr.i.p.stepBudget {
+			fr.i.p.stepBudget = n
+		}
+		return nil
+	}
 	I[vrtPath+"Event"] = func(fr *frame, args []value) value {
 		fr.i.p.events = append(fr.i.p.events, argStr(fr, args[0]))
 		return nil
@@ -387,7 +392,11 @@ func init() {
 		s := fr.i.p.sched
 		m := s.obj(args[0].(*value))
 		s.yield("RWMutex.Lock")
+		// a blocked Lock call excludes new readers (sync.RWMutex: "a blocked Lock call excludes new readers
+		// from acquiring the lock"), so a recursive RLock behind a pending writer deadlocks as it does natively
+		m.waitingWriters++
 		s.block("RWMutex.Lock", func() bool { return m.held || m.readers > 0 })
+		m.waitingWriters--
 		m.held = true
 		s.cur.vc.join(&m.vc)
 		s.cur.vc.join(&m.rvc)
@@ -408,7 +417,7 @@ func init() {
 		s := fr.i.p.sched
 		m := s.obj(args[0].(*value))
 		s.yield("RWMutex.RLock")
-		s.block("RWMutex.RLock", func() bool { return m.held })
+		s.block("RWMutex.RLock", func() bool { return m.held || m.waitingWriters > 0 })
 		m.readers++
 		s.cur.vc.join(&m.vc)
 		return nil
